@@ -159,10 +159,6 @@ RegistryT<ArgsT<TG_, TSL_, TRL_, NCC_, 0, 0, TRO_ HFSM2_IF_SERIALIZATION(, NSB_)
 			{
 				requested  = parent.prong;
 			}
-			else {
-				parent = forkParent(parent.forkId);
-				break;
-			}
 		}
 
 		for (;
